@@ -80,6 +80,10 @@ static void DecodeOneReg(Word Index) {
         ;
     else if (!DecodeReg(ArgStr[1].str.p_str, &Reg)) {
         WrStrErrorPos(ErrNum_InvReg, &ArgStr[1]);
+    }
+    /* ANDZ r0 and STRZ r0 do not exist: their opcodes are HALT resp. NOP */
+    else if ((Reg == 0) && ((Index == 0x40) || (Index == 0xc0))) {
+        WrStrErrorPos(ErrNum_InvReg, &ArgStr[1]);
     } else {
         BAsmCode[0] = Index | Reg;
         CodeLen     = 1;
